@@ -870,6 +870,12 @@ pub fn check(w: &LspWorld, sim: &SimResult, known: &KnownFindings, met: &mut Vec
       }
     }
   }
+  // the CLI front ends agree with each other on the newest text of one document per history
+  if let Some((ui, sess)) = sessions.iter().enumerate().find(|(ui, s)| s.open && w.uris[*ui].inside && has_lang(&w.uris[*ui].rel)) {
+    if let Some(v) = frontends_check(w, &w.uris[ui], &sess.text)? {
+      return Ok(Some(v));
+    }
+  }
   // every client request was answered exactly once
   for id in &sim.client_requests {
     let n = sim.responses.get(id).copied().unwrap_or(0);
@@ -878,6 +884,156 @@ pub fn check(w: &LspWorld, sim: &SimResult, known: &KnownFindings, met: &mut Vec
     }
   }
   Ok(None)
+}
+
+// ---------------------------------------------------------------------------------------
+// stateless clause of C09 on texts that occur in simulated histories: the CLI front ends
+// agree with each other (the LSP is compared with `scan --json=stream` above)
+
+fn cli_records(args: &[&str], mode: &str, stdin: Option<&str>) -> Result<Vec<Value>, String> {
+  let root = root_dir();
+  let argv: Vec<String> = args.iter().map(|s| s.to_string()).collect();
+  let cfg = SchedCfg { seed: 0, policy: Policy::Canonical, k: 1, forced: None, forced_picks: None, faults: vec![], hash_seed: 7 };
+  let out = cli_run::run_cli_full(&root, &argv, 7, Some(cfg), false, stdin.map(|s| s.as_bytes().to_vec()));
+  let cmd = Cmd { args: vec![], mode: mode.into(), inspect: false, is_scan: true };
+  let obs = parse_output(&cmd, &out)?;
+  if let Some(f) = obs.failed {
+    return Err(format!("`{}` failed: {f}", args.join(" ")));
+  }
+  if mode == "lines" {
+    return Ok(obs.records.into_iter().map(Value::String).collect());
+  }
+  obs.records.iter().map(|r| serde_json::from_str::<Value>(r).map_err(|e| e.to_string())).collect()
+}
+
+/// (rule id, start line, end line, message) of a JSON record
+fn gh_key(v: &Value) -> String {
+  format!(
+    "{}|{}|{}|{}",
+    v["ruleId"].as_str().unwrap_or(""),
+    v["range"]["start"]["line"].as_u64().unwrap_or(0) + 1,
+    v["range"]["end"]["line"].as_u64().unwrap_or(0) + 1,
+    v["message"].as_str().unwrap_or("")
+  )
+}
+
+pub static FE_DOCS: std::sync::atomic::AtomicU64 = std::sync::atomic::AtomicU64::new(0);
+pub static FE_GITHUB: std::sync::atomic::AtomicU64 = std::sync::atomic::AtomicU64::new(0);
+pub static FE_STDIN: std::sync::atomic::AtomicU64 = std::sync::atomic::AtomicU64::new(0);
+pub static FE_VERDICTS: std::sync::atomic::AtomicU64 = std::sync::atomic::AtomicU64::new(0);
+
+pub fn frontends_check(w: &LspWorld, u: &UriSpec, text: &str) -> Result<Option<(String, String)>, String> {
+  FE_DOCS.fetch_add(1, Ordering::Relaxed);
+  let root = root_dir();
+  let rel = cli_path(u);
+  let p = root.join(&rel);
+  if let Some(parent) = p.parent() {
+    let _ = std::fs::create_dir_all(parent);
+  }
+  std::fs::write(&p, text).map_err(|e| e.to_string())?;
+  let res = (|| -> Result<Option<(String, String)>, String> {
+    // 1. the three JSON styles list the same records
+    let stream = cli_records(&["sg", "scan", "--json=stream", "-j", "1", &rel], "stream", None)?;
+    let canon = |v: &[Value]| {
+      let mut x: Vec<String> = v.iter().map(|r| serde_json::to_string(r).unwrap()).collect();
+      x.sort();
+      x
+    };
+    for (style, mode) in [("--json=compact", "compact"), ("--json=pretty", "pretty")] {
+      let other = cli_records(&["sg", "scan", style, "-j", "1", &rel], mode, None)?;
+      if canon(&other) != canon(&stream) {
+        return Ok(Some(("JSON-STYLES-DIFFER".into(), format!("{}: `scan {style}` lists {} records, `scan --json=stream` {}", u.rel, other.len(), stream.len()))));
+      }
+    }
+    // 2. the GitHub format lists the same findings (it omits hints)
+    let gh = cli_records(&["sg", "scan", "--format", "github", "-j", "1", &rel], "lines", None)?;
+    let mut want: Vec<String> = stream
+      .iter()
+      .filter(|r| r["severity"].as_str() != Some("hint"))
+      .map(|r| {
+        let level = match r["severity"].as_str().unwrap_or("") {
+          "error" => "error",
+          "warning" => "warning",
+          _ => "notice",
+        };
+        let k = gh_key(r);
+        let mut it = k.splitn(4, '|');
+        let (id, l, el, msg) = (it.next().unwrap(), it.next().unwrap(), it.next().unwrap(), it.next().unwrap());
+        format!("::{level} file={rel},line={l},endLine={el},title={id}::{msg}")
+      })
+      .collect();
+    want.sort();
+    let mut got: Vec<String> = gh.iter().filter_map(|v| v.as_str().map(|s| s.to_string())).collect();
+    got.sort();
+    FE_GITHUB.fetch_add(want.len() as u64, Ordering::Relaxed);
+    // a message with a line break spans several output lines: compare joined text then
+    if got != want && got.join("\n") != want.join("\n") {
+      let d = got.iter().find(|g| !want.contains(g)).or(want.iter().find(|x| !got.contains(x))).cloned().unwrap_or_default();
+      return Ok(Some(("GITHUB-FORMAT-DIFFERS".into(), format!("{}: `scan --format github` prints {} annotations, the JSON records call for {}; e.g. {}", u.rel, got.len(), want.len(), d))));
+    }
+    // 3. --stdin with one rule file vs the same rule file on the file
+    let lang = {
+      let ext = u.rel.rsplit('.').next().unwrap_or("");
+      LSP_LANGS.iter().find(|x| x.1 == ext).map(|x| x.0)
+    };
+    if let Some(lang) = lang {
+      for d in &w.project.rule_dirs {
+        for f in &d.files {
+          let usable = !f.docs.is_empty() && f.docs.iter().all(|r| r.language == lang && r.files.is_none() && r.ignores.is_none() && r.severity.as_deref() != Some("off") && !r.rule.contains("matches: g-") );
+          if !usable {
+            continue;
+          }
+          let rf = format!("{}/{}", d.name, f.name);
+          let on_file = cli_records(&["sg", "scan", "-r", &rf, "--json=stream", "-j", "1", &rel], "stream", None)?;
+          let on_stdin = cli_records(&["sg", "scan", "-r", &rf, "--json=stream", "--stdin"], "stream", Some(text))?;
+          let strip = |v: &[Value]| {
+            let mut x: Vec<String> = v
+              .iter()
+              .map(|r| {
+                let mut r = r.clone();
+                if let Some(o) = r.as_object_mut() {
+                  o.remove("file");
+                }
+                serde_json::to_string(&r).unwrap()
+              })
+              .collect();
+            x.sort();
+            x
+          };
+          FE_STDIN.fetch_add(1, Ordering::Relaxed);
+          if strip(&on_file) != strip(&on_stdin) {
+            return Ok(Some(("STDIN-DIFFERS".into(), format!("{}: `scan -r {rf} --stdin` lists {} records, the same rule file on the file {}", u.rel, on_stdin.len(), on_file.len()))));
+          }
+          // 4. `sg test` verdict per rule of this file: valid = no finding, invalid = at least one
+          if !text.contains("ast-grep-ignore") {
+            let tdir = root.join("frontends-tests");
+            let _ = std::fs::remove_dir_all(&tdir);
+            std::fs::create_dir_all(&tdir).map_err(|e| e.to_string())?;
+            for r in &f.docs {
+              let n = on_file.iter().filter(|x| x["ruleId"].as_str() == Some(r.id.as_str())).count();
+              let key = if n == 0 { "valid" } else { "invalid" };
+              let other = if n == 0 { "invalid" } else { "valid" };
+              let y = format!("id: {}\n{key}:\n- {}\n{other}: []\n", r.id, serde_json::to_string(text).unwrap());
+              std::fs::write(tdir.join(format!("{}-test.yml", r.id)), y).map_err(|e| e.to_string())?;
+            }
+            FE_VERDICTS.fetch_add(f.docs.len() as u64, Ordering::Relaxed);
+            let argv: Vec<String> = ["sg", "test", "-t", "frontends-tests", "--skip-snapshot-tests"].iter().map(|s| s.to_string()).collect();
+            let out = cli_run::run_cli(&root, &argv, 7, None);
+            let _ = std::fs::remove_dir_all(&tdir);
+            if let Err(e) = &out.result {
+              if e.starts_with("test failed") {
+                return Ok(Some(("TEST-VERDICT-DIFFERS".into(), format!("{}: `sg test` does not confirm what `sg scan -r {rf}` reports for the same text ({e})", u.rel))));
+              }
+            }
+          }
+          return Ok(None); // one rule file per document is enough
+        }
+      }
+    }
+    Ok(None)
+  })();
+  let _ = std::fs::remove_file(&p);
+  res
 }
 
 fn first_diff(a: &[Diag], b: &[Diag]) -> String {
@@ -1150,6 +1306,10 @@ impl Simulation for C09Sim {
     let stale = w.history.iter().any(|m| matches!(m, Msg::Change { .. })) && sim.publishes.len() >= 2;
     r.nontrivial = stale || sim.backpressure_polls > 0 || sim.server_requests > 0;
     r.add("probe:publishes_checked_against_cli", sim.publishes.len() as u64);
+    r.add("probe:frontends_documents_cross_checked", FE_DOCS.swap(0, Ordering::Relaxed));
+    r.add("probe:frontends_github_annotations_compared", FE_GITHUB.swap(0, Ordering::Relaxed));
+    r.add("probe:frontends_stdin_vs_file_compared", FE_STDIN.swap(0, Ordering::Relaxed));
+    r.add("probe:frontends_test_verdicts_compared", FE_VERDICTS.swap(0, Ordering::Relaxed));
     r.add("probe:server_to_client_requests", sim.server_requests as u64);
     if sim.backpressure_polls > 0 {
       r.count("fault:backpressure");
